@@ -61,7 +61,19 @@ def holds(max_n=2):
     # section (its n-th one since the generated part began) - the classic check-then-act window
     recipe = st.builds(lambda t, n, d: [[t, "lock.released", n, d]], st.sampled_from(["transport_layer_thread", "recv_message_monitor", "PSM"]),
                        st.integers(1, 5), st.sampled_from([0.02, 0.02, 0.3]))
-    return st.one_of(st.just([]), recipe, st.lists(one, min_size=1, max_size=max_n))
+    # a delay between two source lines inside one of the transport / association functions (check-then-act without any
+    # synchronisation call in between); needs a World built with line_holds=True (see wants_line_holds)
+    line = st.builds(lambda t, f, n, d: [[t, "line:" + f, n, d]], st.sampled_from(HOLD_THREADS), st.sampled_from(LINE_FUNCS), st.integers(1, 40),
+                     st.sampled_from([0.001, 0.02, 0.3]))
+    return st.one_of(st.just([]), recipe, st.lists(one, min_size=1, max_size=max_n), line)
+
+
+LINE_FUNCS = ["_run", "_write", "write", "_read", "read", "_set_selector_events_mask", "close", "recv_message_from_queue", "put_message_into_send_queue",
+              "send_message_from_queue", "get_message", "get_postprocess_recv_message", "send_message", "send_messages", "tracking_events"]
+
+
+def wants_line_holds(holds_):
+    return any(h[1].startswith("line:") for h in holds_ or [])
 
 
 def apply_holds(world, holds_):
